@@ -7,6 +7,6 @@ CONSTANTS
   GenMode = FALSE
   EmitOn = FALSE
 VIEW view
-INVARIANTS TypeOK LockInv QuiescentInv
-PROPERTIES SecretInv ChangeKeepsFlag
+INVARIANTS TypeOK LockInv QuiescentInv ObligInv DeadlineInv
+PROPERTIES SecretInv ChangeKeepsFlag TimerLocks
 CHECK_DEADLOCK FALSE
